@@ -415,7 +415,14 @@ def make_tree(rng, small=False):
                     p_unary=rng.choice([0, 0.15, 0.3]),
                     moves=rng.choice([0, 0, 0, 1, 2, 4]),
                     root_pieces=rng.choice([1, 1, 2, 3]),
-                    sid=rng.choice([1, 7, 42, 1234]))
+                    sid=rng.choice([1, 7, 42, 1234, 0]))
+    # no brackets in constituent labels, no '#ddd' words (excluded, see
+    # ASSUMPTIONS); everything else must be written as it is
+    gen.spice(rng, spec, ['cat-apostrophe', 'pos-apostrophe', 'cat-keyword',
+                          'cat-punct-char', 'pos-punct-char', 'pos-decorated',
+                          'cat-digit-first', 'cat-at-x', 'word-unicode',
+                          'word-keyword', 'word-percent',
+                          'word-typographic-punct'])
     r = rng.random()
     if r < 0.25:
         spec['root']['l'] = rng.choice(['TOP', 'ROOT', 'S', 'VROOT+S'])
